@@ -1000,6 +1000,43 @@ def _inp(V, E, D=None):
     return d
 
 
+def oracle_small_segments(res, api, gridmod):
+    """strips of n x 1 quads (two triangles each, one domain per quad), vertices numbered row by row: every single quad and
+    every pair of quads is extracted and compared corner by corner with the elements it came from"""
+    for n in (8, 11):
+        V = np.array([[float(i), 0.0, 0.0] for i in range(n + 1)] + [[float(i), 1.0 + 0.1 * i, 0.05 * i * i] for i in range(n + 1)]).T
+        E, D = [], []
+        for i in range(n):
+            E += [[i, i + 1, n + 2 + i], [i, n + 2 + i, n + 1 + i]]
+            D += [i + 1, i + 1]
+        E = np.array(E, dtype=np.uint32).T
+        g = api.Grid(V, E, np.array(D, dtype=np.uint32))
+        gE = np.asarray(g.elements).astype(np.int64)
+        seglists = [[d] for d in range(1, n + 1)] + [[d, d + 3] for d in range(1, n - 2)]
+        for segs in seglists:
+            name = f"strip{n}x1"
+            try:
+                sgrid = gridmod.grid_from_segments(g, segs)
+            except Exception as e:  # noqa
+                res.counterexample("segments-raises", f"grid_from_segments raises {type(e).__name__} [grid {name}]",
+                                   grid=name, segments=segs, error=repr(e)[:200])
+                return
+            keep = [j for j in range(g.number_of_elements) if int(g.domain_indices[j]) in segs]
+            sE = np.asarray(sgrid.elements).astype(np.int64)
+            res.case(("oracle-small-segments", n, tuple(segs)), nontrivial=True)
+            ok = sgrid.number_of_elements == len(keep)
+            for k, j in enumerate(keep if ok else []):
+                for r in range(3):
+                    if not np.array_equal(np.asarray(sgrid.vertices)[:, sE[r, k]], np.asarray(g.vertices)[:, gE[r, j]]):
+                        ok = False
+            if not ok:
+                res.counterexample("segments-geometry", f"grid_from_segments({segs}) of the {n}x1 strip: an element of the "
+                                   "extracted grid does not have the corners of the element it came from [grid " + name + "]",
+                                   grid=name, segments=segs, vertices=V.T.tolist(), elements=E.T.tolist(), domain_indices=D,
+                                   extracted_elements=sE.T.tolist(), extracted_vertices=np.asarray(sgrid.vertices).T.tolist())
+                return
+
+
 def oracle(ctx, deep=False):
     res = Result()
     api, gridmod = _api()
@@ -1037,6 +1074,10 @@ def oracle(ctx, deep=False):
             V, E = soup(rng) if rng.random() < 0.7 else rng.choice(base_grids_cache(ctx))[1:]
             parts.append((V, E, [rng.choice((0, 1, 3, 4, 9)) for _ in range(E.shape[1])]))
         oracle_union_segments(res, f"union{k}", parts, api, gridmod, rng, M)
+    # grid_from_segments on SMALL segments of a LARGER grid: the vertex indices of the segment exceed the size of the hash
+    # table of Python's set(), so the iteration order of set(vertex indices) is not the sorted order (seeded change C11-c:
+    # vertex array built in sorted order, vertex map numbered in set order)
+    oracle_small_segments(res, api, gridmod)
     # Grid must reject index-degenerate elements (this is what makes NonDegenerate an assumption, not a gap)
     for t in ([0, 0, 1], [0, 1, 0], [1, 0, 0]):
         V = np.array([[0, 0, 0], [1, 0, 0], [0, 1, 0], [0, 0, 1.0]]).T
